@@ -1,6 +1,7 @@
 package props
 
 import (
+	"bytes"
 	"encoding/binary"
 	"fmt"
 	"os"
@@ -171,10 +172,20 @@ func (cs corruptsim) runMeta(c *Case, dir string, img []byte, e *work.Exec, out 
 			}
 		}
 		distinct[mixHash(salt, uint64(valid), uint64(wantTxid+1))] = true
-		for variant := 0; variant < 2; variant++ {
+		for variant := 0; variant < 3; variant++ {
 			o := &bolt.Options{ReadOnly: true}
 			if variant == 1 {
 				o.PageSize = ps
+			}
+			if variant == 2 {
+				// an explicit but wrong page size: detection from the file must still win
+				if salt%8 != 3 {
+					continue
+				}
+				o.PageSize = ps * 2
+				if o.PageSize > 16384 {
+					o.PageSize = 1024
+				}
 			}
 			if variant == 0 && ps == os.Getpagesize() && salt%4 != 0 {
 				continue // page size equals the OS page size: both variants coincide; sample
@@ -458,19 +469,57 @@ func structuralCorruptions(img []byte, ps int, res *dec.Result, t *sim.Tape) []c
 			}})
 		}
 		if flags == dec.FlagBranch && cnt >= 2 {
-			// a child's first key smaller than its parent's separator: make the
-			// first key of child i (i >= 1) sort below everything
-			i := 1 + t.Intn(cnt-1)
-			eo := po + dec.PageHeaderSize + i*dec.BranchElemSize
-			child := le.Uint64(img[eo+8:])
-			co := pageOff(child)
-			if co+dec.PageHeaderSize+dec.LeafElemSize <= len(img) && le.Uint16(img[co+8:]) == dec.FlagLeaf && le.Uint16(img[co+10:]) >= 1 {
-				keyPos := co + dec.PageHeaderSize + int(le.Uint32(img[co+dec.PageHeaderSize+4:]))
-				if ks := le.Uint32(img[co+dec.PageHeaderSize+8:]); ks > 0 && keyPos < len(img) && img[keyPos] != 0 {
-					out = append(out, corruption{"key-order", fmt.Sprintf("leaf page %d (child %d of branch %d): first key made smaller than the parent's separator", child, i, id), func(b []byte) {
-						b[keyPos] = 0
-					}})
+			// a child's first key smaller than its parent's separator. Three forms:
+			// far below (first byte zeroed) for the leftmost child and for another
+			// child, and just below (last byte decremented) while staying above
+			// the left sibling's last key.
+			firstKeyOf := func(child uint64) (pos, ks int, ok bool) {
+				co := pageOff(child)
+				if co+dec.PageHeaderSize+dec.LeafElemSize > len(img) || le.Uint16(img[co+8:]) != dec.FlagLeaf || le.Uint16(img[co+10:]) < 1 {
+					return 0, 0, false
 				}
+				pos = co + dec.PageHeaderSize + int(le.Uint32(img[co+dec.PageHeaderSize+4:]))
+				ks = int(le.Uint32(img[co+dec.PageHeaderSize+8:]))
+				return pos, ks, ks > 0 && pos+ks <= len(img)
+			}
+			lastKeyOf := func(child uint64) []byte {
+				co := pageOff(child)
+				if co+dec.PageHeaderSize > len(img) || le.Uint16(img[co+8:]) != dec.FlagLeaf {
+					return nil
+				}
+				n := int(le.Uint16(img[co+10:]))
+				if n < 1 {
+					return nil
+				}
+				eo := co + dec.PageHeaderSize + (n-1)*dec.LeafElemSize
+				pos, ks := eo+int(le.Uint32(img[eo+4:])), int(le.Uint32(img[eo+8:]))
+				if pos+ks > len(img) {
+					return nil
+				}
+				return img[pos : pos+ks]
+			}
+			childAt := func(i int) uint64 { return le.Uint64(img[po+dec.PageHeaderSize+i*dec.BranchElemSize+8:]) }
+			for _, i := range []int{0, 1 + t.Intn(cnt-1)} {
+				child := childAt(i)
+				if pos, _, ok := firstKeyOf(child); ok && img[pos] != 0 {
+					p := pos
+					out = append(out, corruption{"key-order", fmt.Sprintf("leaf page %d (child %d of branch %d): first key made far smaller than the parent's separator", child, i, id), func(b []byte) { b[p] = 0 }})
+				}
+			}
+			for i := 1; i < cnt && i < 6; i++ {
+				child := childAt(i)
+				pos, ks, ok := firstKeyOf(child)
+				left := lastKeyOf(childAt(i - 1))
+				if !ok || left == nil || img[pos+ks-1] == 0 {
+					continue
+				}
+				lowered := append([]byte(nil), img[pos:pos+ks]...)
+				lowered[ks-1]--
+				if bytes.Compare(lowered, left) <= 0 {
+					continue // would collide with the left sibling: not the "just below the separator" form
+				}
+				p := pos + ks - 1
+				out = append(out, corruption{"key-order", fmt.Sprintf("leaf page %d (child %d of branch %d): first key lowered just below the parent's separator (still above the left sibling's last key)", child, i, id), func(b []byte) { b[p]-- }})
 			}
 		}
 		if flags == dec.FlagLeaf && cnt >= 2 {
